@@ -8,7 +8,9 @@ EXTENDS Construct, TLC, Json, IOUtils
 CONSTANTS MsgLens, FooterLens, AadLens, V1SecretLens,
           BigTuples      \* extra (message, footer, assertion) length triples around the buffer sizes a streaming writer might use
 
-BigQuick == {<<1023, 0, 0>>, <<1024, 0, 0>>, <<1025, 9, 7>>, <<4096, 0, 0>>, <<17, 1024, 0>>, <<17, 128, 129>>, <<0, 4097, 0>>, <<33, 60, 1100>>, <<512, 513, 0>>}
+BigQuick == {<<1023, 0, 0>>, <<1024, 0, 0>>, <<1025, 9, 7>>, <<4096, 0, 0>>, <<17, 1024, 0>>, <<17, 128, 129>>, <<0, 4097, 0>>, <<33, 60, 1100>>, <<512, 513, 0>>,
+             \* beyond the thresholds at which an implementation might switch to a streaming / multi-part primitive
+             <<16385, 0, 0>>, <<20000, 60, 9>>, <<65537, 0, 0>>}
 BigThorough == BigQuick \cup {<<2048, 2049, 0>>, <<8192, 0, 0>>, <<16, 256, 255>>, <<255, 255, 255>>, <<65, 511, 64>>, <<1, 8192, 1>>}
 
 \* extra cases requested by the orchestrator (the length tuples, PBKW costs and v1 key lengths of the official test
